@@ -94,6 +94,7 @@ static void store_completed(thread_pool_impl_t *pool, work_item_t *done,
 	if (status != 0 && pool->status == 0)
 		pool->status = status;
 
+	VERIF_EVENT(4, done->ticket_number, status, 0);
 	pthread_cond_broadcast(&pool->done_cond);
 }
 
@@ -133,7 +134,11 @@ static THREAD_FUN(worker_proc, arg)
 		if (item == NULL)
 			break;
 
+		VERIF_EVENT(2, item->ticket_number,
+			    worker - worker->pool->workers, 0);
 		status = worker->fun(worker->user, item->data);
+		VERIF_EVENT(3, item->ticket_number,
+			    worker - worker->pool->workers, status);
 	}
 
 	return THREAD_EXIT_SUCCESS;
@@ -155,6 +160,7 @@ static work_item_t *try_dequeue_done(thread_pool_impl_t *pool)
 	pool->done = out->next;
 	out->next = NULL;
 	pool->next_dequeue_ticket += 1;
+	VERIF_EVENT(5, out->ticket_number, 0, 0);
 	return out;
 }
 
@@ -234,6 +240,7 @@ static int submit(thread_pool_t *interface, void *ptr)
 	if (status == 0) {
 		item->data = ptr;
 		item->ticket_number = pool->next_ticket++;
+		VERIF_EVENT(1, item->ticket_number, 0, 0);
 
 		if (pool->queue_last == NULL) {
 			pool->queue = item;
